@@ -37,7 +37,7 @@ def cases(tier, seed):
         cs.append({"kind": "geom", "gen": g, "sel_seed": seed * 53 + i, "npos": 8 if tier == "quick" else 12})
     nsplit = 1 if tier == "quick" else 4
     for i in range(nsplit):
-        nbx, nby = [(4, 3), (5, 3), (3, 3), (13, 1)][i % 4]
+        nbx, nby = [(11, 1), (13, 1), (7, 2), (5, 3)][i % 4]     # 11, 13, 14 boxes: not divisible by the file count
         g = dict(seed=rng.randrange(10 ** 9), ndims=3, nlevels=1, names=[f"q{k}" for k in range(10)],
                  payload="random", base=[64 * nbx, 64 * nby, 2], sizes=[[64], [64], [2]], aniso=False)
         cs.append({"kind": "split", "gen": g, "sel_seed": seed * 59 + i})
